@@ -28,6 +28,7 @@ type material struct {
 	dir string
 
 	caFile, serverCertFile, serverKeyFile string
+	hostTrustFile                         string // SSL_CERT_FILE of the server process
 	htpasswdFile                          string
 
 	caPool *x509.CertPool // what clients trust (the harness CA)
@@ -153,7 +154,11 @@ func newMaterial(rng *rand.Rand, dir string) (*material, error) {
 	m.serverKeyFile = filepath.Join(dir, "server.key")
 	m.htpasswdFile = filepath.Join(dir, "htpasswd")
 	caPEM := pem.EncodeToMemory(&pem.Block{Type: "CERTIFICATE", Bytes: ca.cert.Raw})
-	for p, b := range map[string][]byte{m.caFile: caPEM, m.serverCertFile: srvCert, m.serverKeyFile: srvKey} {
+	// The host's trust store, as the server process sees it (SSL_CERT_FILE), holds the *foreign* CA: like every real
+	// host it trusts authorities other than the one configured for client certificates, and that must not matter.
+	m.hostTrustFile = filepath.Join(dir, "host-trust-store.pem")
+	foreignPEM := pem.EncodeToMemory(&pem.Block{Type: "CERTIFICATE", Bytes: foreign.cert.Raw})
+	for p, b := range map[string][]byte{m.caFile: caPEM, m.serverCertFile: srvCert, m.serverKeyFile: srvKey, m.hostTrustFile: foreignPEM} {
 		if err := os.WriteFile(p, b, 0o600); err != nil {
 			return nil, err
 		}
